@@ -348,15 +348,19 @@ int convert_msa_to_internal(struct msa* msa, int type)
 
         t = a->to_internal;
         msa->L = a->L;
+        /* residues the alphabet does not know are treated as the wildcard (X or N) */
+        int8_t wildcard = (t[(int)'X'] != -1) ? t[(int)'X'] : t[(int)'N'];
         for(i = 0; i <  msa->numseq;i++){
                 seq = msa->sequences[i];
                 for(j =0 ; j < seq->len;j++){
-                        if(t[(int) seq->seq[j]] == -1){
+                        int c = (unsigned char) seq->seq[j];
+                        if(c >= 128 || t[c] == -1){
                                 WARNING_MSG("there should be no character not matching the alphabet");
                                 WARNING_MSG("offending character: >>>%c<<<", seq->seq[j]);
                                 /* exit(0); */
+                                seq->s[j] = wildcard;
                         }else{
-                                seq->s[j] = t[(int) seq->seq[j]];
+                                seq->s[j] = t[c];
                         }
                 }
 
